@@ -326,6 +326,15 @@ func roundTrip(t *rapid.T, c codec.Codec, val interface{}, dst interface{}, got 
 	if err != nil {
 		t.Fatalf("%s: Marshal(%T) of a value in the supported domain failed: %v", c.Name(), val, err)
 	}
+	// an encoding handed out by Marshal belongs to the caller: marshalling other values
+	// afterwards must not change it
+	snapshot := append([]byte(nil), enc...)
+	for _, o := range otherValues(c.Name()) {
+		c.Marshal(o)
+	}
+	if !bytes.Equal(enc, snapshot) {
+		t.Fatalf("%s: the encoding returned by Marshal(%T) changed after later Marshal calls:\n was  %s\n now  %s", c.Name(), val, vt.Trunc(string(snapshot)), vt.Trunc(string(enc)))
+	}
 	// the framework hands codecs slices of pooled buffers: decode from a private copy
 	in := append(make([]byte, 0, len(enc)+8), enc...)
 	func() {
@@ -347,6 +356,27 @@ func roundTrip(t *rapid.T, c codec.Codec, val interface{}, dst interface{}, got 
 	if g := got(); !equalValues(g, want) {
 		t.Fatalf("%s: decoded %T aliases the decoder's input buffer: after the buffer was reused the value reads\n got  %+v\n want %+v", c.Name(), val, g, want)
 	}
+}
+
+// otherValues are marshalled after the value under test to expose encodings that
+// alias a buffer the codec reuses.
+func otherValues(codecName string) []interface{} {
+	z := strings.Repeat("Z", 300)
+	switch codecName {
+	case "json":
+		return []interface{}{&JS{B: z}, &JS{}}
+	case "xml":
+		return []interface{}{&XS{B: z}, &XS{}}
+	case "form":
+		return []interface{}{&FS{Name: z}, url.Values{"k": {z}}}
+	case "plain":
+		return []interface{}{z, []byte(z), int64(-1)}
+	case "protobuf":
+		return []interface{}{&ppb.Payload{Body: []byte(z), ServiceMethod: z}, &ppb.Payload{}}
+	case "thrift":
+		return []interface{}{&vt.TStruct{S: z, B: []byte(z), L: []string{z}}, &vt.TStruct{}}
+	}
+	return nil
 }
 
 func TestC11RoundTrip(t *testing.T) {
@@ -489,6 +519,13 @@ func TestC11RoundTrip(t *testing.T) {
 			enc, err := c.Marshal(v)
 			if err != nil {
 				t.Fatalf("thrift marshal: %v", err)
+			}
+			snapshot := append([]byte(nil), enc...)
+			for _, o := range otherValues("thrift") {
+				c.Marshal(o)
+			}
+			if !bytes.Equal(enc, snapshot) {
+				t.Fatalf("thrift: the encoding returned by Marshal changed after later Marshal calls")
 			}
 			in := append([]byte(nil), enc...)
 			if err := c.Unmarshal(in, &d); err != nil {
